@@ -46,12 +46,15 @@ def same(real, o, tol=1e-12):
     return set(got.keys()) == set(want.keys()) and all(abs(got[k] - want[k]) <= tol for k in want)
 
 
-def check_case(ctx, c):
+def check_case(ctx, c, pool=None):
+    """one transition; `pool` = the live real objects produced by the earlier steps of a history (None: rebuilt from the
+    abstract pre-state)"""
     from orquestra.quantum.distributions import MeasurementOutcomeDistribution, compute_clipped_negative_log_likelihood, compute_jensen_shannon_divergence, compute_mmd, load_measurement_outcome_distribution, load_measurement_outcome_distributions, save_measurement_outcome_distribution, save_measurement_outcome_distributions
 
     out = []
     op = c["op"]
-    pool = [real_obj(o) for o in c["pre"]]
+    if pool is None:
+        pool = [real_obj(o) for o in c["pre"]]
     desc = "%s(%s)" % (op, {"new": (as_dict(c["inp"]), c["nrm"]), "marginal": (c["o"], c["qs"]), "saveload": c["o"], "distance": (c["o"], c["o2"])}[op])
     res = None
     raised = None
@@ -140,6 +143,20 @@ def check_case(ctx, c):
     return out
 
 
+def check_walk(ctx, walk):
+    """a history: the same real objects live through all steps (a marginal taken twice from one object, in two orders, ...)"""
+    pool = []
+    out = []
+    for i, c in enumerate(walk):
+        fails = check_case(ctx, c, pool)
+        if fails:
+            hist = " -> ".join("%s%s" % (e["op"], (e["o"], e["qs"]) if e["op"] == "marginal" else "") for e in walk[: i + 1])
+            return [(k + ":history", "after the history [%s]: %s" % (hist, m)) for k, m in fails]
+        if len(pool) != len(c["post"]):
+            break
+    return out
+
+
 def known_k4(ctx):
     """single-subsystem outcomes >= 10 are not representable by the file format (key '10' reads back as (1, 0))"""
     from orquestra.quantum.distributions import MeasurementOutcomeDistribution, load_measurement_outcome_distribution, save_measurement_outcome_distribution
@@ -171,6 +188,19 @@ def run(ctx):
         ctx.count({"k": c["op"], "o": c["o"], "qs": c["qs"], "inp": c["inp"], "nrm": c["nrm"], "pre": len(c["pre"])}, kind=c["op"])
         for key, msg in fails:
             ctx.violation(key, msg, c)
+    # histories: every exported transition is also the LAST step of a walk from the empty pool on which the real objects persist
+    from ..graph import Graph
+
+    edges = [dict(c) for c in cases]
+    g = Graph(edges, [])
+    rng = random.Random(ctx.seed)
+    walks = [w for w in g.walks(rng, select=lambda e: len(e["pre"]) >= 2 or e["op"] in ("marginal", "distance")) if len(w) >= 2]
+    if len(walks) < 100:
+        raise TLCError("only %d histories assembled from the transition graph" % len(walks))
+    for w, fails in zip(walks, ctx.pmap(check_walk, walks, chunksize=16)):
+        ctx.count({"k": "history", "ops": [e["op"] for e in w], "last": {"o": w[-1]["o"], "qs": w[-1]["qs"]}}, kind="history of %d steps" % len(w))
+        for key, msg in fails:
+            ctx.violation(key, msg, {"k": "walk", "walk": [{k: v for k, v in e.items() if not k.startswith("_")} for e in w]})
     known_k4(ctx)
     ctx.judged_numerically += ["MMD symmetry / non-negativity / zero on the diagonal, clipped NLL >= entropy, symmetry of the symmetrised divergence: evaluated on the library's floats for the pairs TLC enumerates"]
     ctx.assumptions.append("marginal keys are built by joining digits: outcome values >= 10 are outside the model")
@@ -179,6 +209,11 @@ def run(ctx):
 def replay(ctx, case):
     if case.get("k") in ("k4", "finding"):
         known_k4(ctx)
+        return
+    if case.get("k") == "walk":
+        ctx.count({"k": "history"})
+        for key, msg in check_walk(ctx, case["walk"]):
+            ctx.violation(key, msg, case)
         return
     ctx.count({"k": case["op"]})
     for key, msg in check_case(ctx, case):
